@@ -16,7 +16,7 @@ from . import wire as W
 
 class Policy:
     def __init__(self, session="accept", large_fo="accept", std_fo="accept", fclose="accept",
-                 session_handles=None, conn_ids=None, max_std_size=511, max_large_size=4002):
+                 session_handles=None, conn_ids=None, max_std_size=511, max_large_size=4002, fo_refuse_first=0):
         self.session = session  # 'accept' | 'refuse'
         self.large_fo = large_fo  # 'accept' | 'refuse08' (service not supported) | 'refuse0109' (invalid size)
         self.std_fo = std_fo  # 'accept' | 'refuse'
@@ -25,6 +25,7 @@ class Policy:
         self.conn_ids = list(conn_ids or [0x00C0FFEE, 0x8BADF00D, 0x12345678, 0xFF1E2D3C, 0x7A7B7C7D])
         self.max_std_size = max_std_size
         self.max_large_size = max_large_size
+        self.fo_refuse_first = fo_refuse_first  # the first k Forward Opens (of either kind) are refused (0x01/0x0113 out of connections), later ones follow large_fo/std_fo
 
     def key(self):
         return (self.session, self.large_fo, self.std_fo, self.fclose)
@@ -390,8 +391,11 @@ class Target:
         if fr.session == 0 or fr.session not in self.sessions:
             self.event("C10/I1/forward-open-without-session", "Forward Open without a registered session")
         self.fo_log.append((kind, size, None, fr.session))
-        if (large and self.policy.large_fo != "accept") or (not large and self.policy.std_fo != "accept"):
-            if large and self.policy.large_fo == "refuse08":
+        busy = len(self.fo_log) <= self.policy.fo_refuse_first
+        if busy or (large and self.policy.large_fo != "accept") or (not large and self.policy.std_fo != "accept"):
+            if busy:
+                status, ext = 0x01, [0x0113]
+            elif large and self.policy.large_fo == "refuse08":
                 status, ext = 0x08, []
             else:
                 status, ext = 0x01, [0x0109]
